@@ -257,11 +257,17 @@ impl Scripted {
 /// wiring during the run: the new link gets a channel made from the template that a.out carries; whatever that channel is
 /// doing right now, the new one starts idle, with the same metrics
 fn late_wire() {
-    if let Some(ct) = LATE_CT.with(|c| c.borrow_mut().take()) {
+    if let Some((ct, fresh)) = LATE_CT.with(|c| c.borrow_mut().take()) {
         let me = current();
-        let template = me.gate("out", 0).and_then(|g| g.channel()).expect("a.out carries a channel");
         let o2 = me.gate("o2", 0).expect("gate o2 exists");
-        o2.clone().connect(ct, Some(template));
+        if NEXT_MSG.with(|n| *n.borrow()) % 2 == 0 {
+            // connect called on the far gate with a channel of its own: the direction towards the receiver of the call
+            // (a.o2 -> c.t) carries the very channel that was handed in
+            ct.connect(o2.clone(), fresh);
+        } else {
+            let template = me.gate("out", 0).and_then(|g| g.channel()).expect("a.out carries a channel");
+            o2.clone().connect(ct, Some(template));
+        }
         let ch = o2.channel().expect("the new link carries a channel");
         WEAK_CHANS.with(|w| w.borrow_mut().push(std::sync::Arc::downgrade(&ch)));
         ch.attach_probe(TxProbe(2));
@@ -444,7 +450,7 @@ fn channel(cfg: &NetCfg, id: &str) -> Option<des::net::channel::ChannelRef> {
 
 thread_local! {
     /// the gate c.t while the link a.o2 -> c.t still has to be wired during the run
-    static LATE_CT: RefCell<Option<GateRef>> = const { RefCell::new(None) };
+    static LATE_CT: RefCell<Option<(GateRef, Option<des::net::channel::ChannelRef>)>> = const { RefCell::new(None) };
     static WEAK_GATES: RefCell<Vec<std::sync::Weak<des::net::gate::Gate>>> = const { RefCell::new(Vec::new()) };
     static WEAK_CHANS: RefCell<Vec<std::sync::Weak<des::net::channel::Channel>>> = const { RefCell::new(Vec::new()) };
 }
@@ -521,7 +527,7 @@ pub fn run_scenario_stop(cfg: &NetCfg, scripts: &Value, seed: u64, stop: &str) -
             } else {
                 // the channel lies before the transit gate
                 if cfg.late_wire {
-                    LATE_CT.with(|c| *c.borrow_mut() = Some(ct.clone()));
+                    LATE_CT.with(|c| *c.borrow_mut() = Some((ct.clone(), channel(cfg, "2"))));
                 } else {
                     o2.clone().connect(ct.clone(), channel(cfg, "2"));
                     if let Some(ch) = o2.channel() {
